@@ -98,7 +98,9 @@ def solve_checks(ctx, node, case, collect):
     b = P.operand(case["seed"], shape, case["bdt"], "normal")
     bw = R._wide(b)
     xs = np.linalg.solve(ref.M, bw)
+    rules0 = dict(DISPATCH.rules)
     Ainv = ctx.call(L.inv, A, *alg)
+    inv_rules = sorted(r for r, c in DISPATCH.rules.items() if r.startswith("inv(") and c > rules0.get(r, 0))
     if is_err(Ainv):
         collect("inv-returns", False, {"error": repr(Ainv)})
         return
@@ -119,7 +121,13 @@ def solve_checks(ctx, node, case, collect):
         res = float(np.linalg.norm(ref.M @ x - bw) / max(np.linalg.norm(bw), 1e-300)) if x.shape == xs.shape else None
         collect("inv-product", bool(ok), {"rel_err": rel(x, xs) if x.shape == xs.shape else None, "bound": bound,
                                           "rel_residual": res, "cond": cond, "shape": list(x.shape)})
+    rules1 = dict(DISPATCH.rules)
     x2 = ctx.call(L.solve, A, b, *alg)
+    solve_rules = sorted(r for r, c in DISPATCH.rules.items() if r.startswith("inv(") and c > rules1.get(r, 0))
+    if not is_err(x2) and DISPATCH._installed:
+        # solve(A, b, alg) is inv(A, alg) @ b: it must resolve to the same inverse rules as inv(A, alg) did (dispatch tap),
+        # i.e. honour the algorithm object it was given
+        collect("solve-uses-the-requested-algorithm", solve_rules == inv_rules, {"inv_rules": inv_rules, "solve_rules": solve_rules})
     if is_err(x2):
         collect("solve", False, {"error": repr(x2)})
     else:
